@@ -44,29 +44,32 @@ func runC18(c *an.Ctx) {
 	var arms []arm
 	for _, b := range quote.Blocks {
 		for _, s := range b.Succs {
-			cnd, t, ok := an.EdgeCond(b, s)
+			dnf, ok := an.EdgeDNF(b, s)
 			if !ok {
 				continue
 			}
-			rel := an.Normalize(cnd, t)
-			if rel.Op != token.EQL {
-				continue
-			}
-			cv, isC := an.ConstVal(rel.Y)
-			if !isC || cv.Kind() != constant.Int {
-				continue
-			}
-			if _, isRune := rel.X.Type().Underlying().(interface{ Kind() interface{} }); isRune {
-			}
-			rv, _ := constant.Int64Val(cv)
-			if rv <= 0 || rv > 0x10FFFF {
-				continue
-			}
-			// what does this arm append? look at the constants appended in the successor block
-			text := appendedConstWith(s, rel.X, rune(rv))
-			arms = append(arms, arm{rune(rv), text})
-			if text == "\\"+string(rune(rv)) {
-				escaped[rune(rv)] = true
+			// every way the edge can be taken that is "the byte equals a constant" selects an arm; the
+			// comparison may sit in a predicate helper (needsShellEscape(b)), hence the disjuncts
+			for _, conj := range dnf {
+				for _, rel := range conj {
+					if rel.Op != token.EQL {
+						continue
+					}
+					cv, isC := an.ConstVal(rel.Y)
+					if !isC || cv.Kind() != constant.Int {
+						continue
+					}
+					rv, _ := constant.Int64Val(cv)
+					if rv <= 0 || rv > 0x10FFFF {
+						continue
+					}
+					// what does this arm append? look at the constants appended in the successor block
+					text := appendedConstWith(s, rel.X, rune(rv))
+					arms = append(arms, arm{rune(rv), text})
+					if text == "\\"+string(rune(rv)) {
+						escaped[rune(rv)] = true
+					}
+				}
 			}
 		}
 	}
@@ -155,26 +158,81 @@ func runC18(c *an.Ctx) {
 			continue
 		}
 		done[fn] = true
-		t := an.NewTaint(0, nil)
-		t.NoKeyFlow = true
-		t.Sanitizers = map[*ssa.Function]bool{quote: true, ssq: true}
-		for prm := range src.vals {
-			t.Add(prm)
-		}
-		// env values: extract #2 of next over range envs
-		an.Instrs(fn, func(in ssa.Instruction) {
-			if ex, ok := in.(*ssa.Extract); ok && ex.Index == 2 {
-				if nx, ok := ex.Tuple.(*ssa.Next); ok {
-					if rg, ok := nx.Iter.(*ssa.Range); ok {
-						if prm, isP := rg.X.(*ssa.Parameter); isP && src.envs[prm] {
-							t.Add(ex)
-							nVals++
+		// taintOf: raw values inside g given its raw parameters; helpers in `clean` return quoted text only
+		taintOf := func(g *ssa.Function, gs *srcSet, clean map[*ssa.Function]bool, count bool) *an.Taint {
+			t := an.NewTaint(0, nil)
+			t.NoKeyFlow = true
+			t.Sanitizers = map[*ssa.Function]bool{quote: true, ssq: true}
+			for h := range clean {
+				t.Sanitizers[h] = true
+			}
+			for prm := range gs.vals {
+				t.Add(prm)
+			}
+			// env values: extract #2 of next over range envs
+			an.Instrs(g, func(in ssa.Instruction) {
+				if ex, ok := in.(*ssa.Extract); ok && ex.Index == 2 {
+					if nx, ok := ex.Tuple.(*ssa.Next); ok {
+						if rg, ok := nx.Iter.(*ssa.Range); ok {
+							if prm, isP := rg.X.(*ssa.Parameter); isP && gs.envs[prm] {
+								t.Add(ex)
+								if count {
+									nVals++
+								}
+							}
 						}
 					}
 				}
+			})
+			t.Run()
+			return t
+		}
+		argSources := func(t *an.Taint, gs *srcSet, call *ssa.Call, h *ssa.Function) *srcSet {
+			ns := &srcSet{vals: map[*ssa.Parameter]bool{}, envs: map[*ssa.Parameter]bool{}}
+			for i, a := range call.Call.Args {
+				if i >= len(h.Params) {
+					break
+				}
+				if prm, isP := a.(*ssa.Parameter); isP && gs.envs[prm] {
+					ns.envs[h.Params[i]] = true
+				} else if t.Has(a) {
+					ns.vals[h.Params[i]] = true
+				}
+			}
+			return ns
+		}
+		t := taintOf(fn, src, nil, false)
+		// a private helper that never returns a raw value (it quotes what it is given) yields clean text
+		clean := map[*ssa.Function]bool{}
+		an.Instrs(fn, func(in ssa.Instruction) {
+			call, ok := in.(*ssa.Call)
+			if !ok {
+				return
+			}
+			h := call.Call.StaticCallee()
+			if h == nil || !inFam[h] || h == fn || h == quote || h == ssq {
+				return
+			}
+			ns := argSources(t, src, call, h)
+			if len(ns.vals)+len(ns.envs) == 0 {
+				return
+			}
+			ht := taintOf(h, ns, nil, false)
+			raw := false
+			an.Instrs(h, func(hin ssa.Instruction) {
+				if r, ok := hin.(*ssa.Return); ok {
+					for i := range r.Results {
+						if ht.Has(an.RetVal(r, i)) {
+							raw = true
+						}
+					}
+				}
+			})
+			if !raw {
+				clean[h] = true
 			}
 		})
-		t.Run()
+		t = taintOf(fn, src, clean, true)
 		where := "@" + an.FnName(fn)
 		an.Instrs(fn, func(in ssa.Instruction) {
 			call, ok := in.(*ssa.Call)
@@ -193,17 +251,7 @@ func runC18(c *an.Ctx) {
 			}
 			// raw values or the environment handed to a private helper: analysed there
 			if h := call.Call.StaticCallee(); h != nil && inFam[h] && h != fn {
-				ns := &srcSet{vals: map[*ssa.Parameter]bool{}, envs: map[*ssa.Parameter]bool{}}
-				for i, a := range call.Call.Args {
-					if i >= len(h.Params) {
-						break
-					}
-					if prm, isP := a.(*ssa.Parameter); isP && src.envs[prm] {
-						ns.envs[h.Params[i]] = true
-					} else if t.Has(a) {
-						ns.vals[h.Params[i]] = true
-					}
-				}
+				ns := argSources(taintOf(fn, src, nil, false), src, call, h)
 				if len(ns.vals)+len(ns.envs) > 0 {
 					if old := todo[h]; old != nil {
 						for k := range ns.vals {
